@@ -149,14 +149,36 @@ def run_grid_tables(ctx: Ctx, for_c02: bool = False) -> None:
                 raise AnalysisError(f"T1 D={D} align_corners={ac}: {e}")
 
 
+def _freeze_closure(fn):
+    """Copy of ``fn`` whose free variables are bound to their *current* values (loop variables of the enclosing table function are
+    rebound before a deferred thunk runs)."""
+    import types
+    if not isinstance(fn, types.FunctionType) or not fn.__closure__:
+        return fn
+    cells = []
+    for c in fn.__closure__:
+        try:
+            cells.append(types.CellType(c.cell_contents))
+        except ValueError:  # not yet assigned
+            cells.append(c)
+    g = types.FunctionType(fn.__code__, fn.__globals__, fn.__name__, fn.__defaults__, tuple(cells))
+    g.__kwdefaults__ = fn.__kwdefaults__
+    return g
+
+
 def _guard(ctx: Ctx, rule: str, inst: str, fi, construct: str, thunk, expect=None, msg: str = ""):
     """Evaluate thunk() -> (ok, detail). InterpError counts as failed obligation."""
+    focus = getattr(ctx, "focus", None)
+    if focus and not rule.startswith(focus):
+        return True
     par = getattr(ctx, "_par", None)
     if par is not None:
         # inside ``with ctx.parallel():`` — queue; evaluated by a worker process when the section closes
+        frozen = _freeze_closure(thunk)
+
         def job():
             ctx._par = None
-            _guard(ctx, rule, inst, fi, construct, thunk, expect, msg)
+            _guard(ctx, rule, inst, fi, construct, frozen, expect, msg)
         par.defer(job)
         return True
     try:
@@ -172,6 +194,12 @@ def _guard(ctx: Ctx, rule: str, inst: str, fi, construct: str, thunk, expect=Non
 
 
 def _grid_obligations(ctx: Ctx, D: int, ac: bool, for_c02: bool, fractional: bool = False) -> None:
+    # the obligations of one grid share its symbolic environment (read-only): evaluated by forked workers when the section closes
+    with ctx.parallel():
+        _grid_obligations_(ctx, D, ac, for_c02, fractional)
+
+
+def _grid_obligations_(ctx: Ctx, D: int, ac: bool, for_c02: bool, fractional: bool = False) -> None:
     prog = ctx.prog
     gt = GridTables(ctx, D, ac, fractional)
     it, g = gt.it, gt.grid
